@@ -58,6 +58,18 @@ Theorem C14_status_time : forall r loopMS, wf r loopMS -> forall c codes repID n
 Proof. exact segAnswer_time. Qed.
 Print Assumptions C14_status_time.
 
+(** An audio request by $Time$: the audio time t (a multiple of the frame duration) lies in
+    reference segment n, i.e. S n <= floor(t * ts / audio timescale) < E n. *)
+Theorem C14_status_audio_time : forall r loopMS, wf r loopMS -> forall c codes repID ats sd t n now base,
+  startS c = 0 -> startNr c = 0 -> repDuration r < two64 -> Forall (goodCode r) codes -> codes <> [] ->
+  0 <= n < two32 -> S r n < two63 -> ts r < two32 -> 0 <= now ->
+  0 < ats -> 0 < sd -> t mod sd = 0 -> 0 <= t -> t * ts r < two64 ->
+  S r n <= t * ts r / ats < E r n ->
+  segAnswer r loopMS c codes repID (Some (ats, sd)) ByTime t now base =
+  timedAnswer (checkTime (E r n) (ts r) now (tsbdS c) (ato c)) (scheduled r codes repID n base).
+Proof. exact segAnswer_audio_time. Qed.
+Print Assumptions C14_status_audio_time.
+
 (** One pattern: the code if and only if the representation matches and n is the rsq-th segment
     among those starting in its cycle; otherwise the normal answer. *)
 Theorem C14_status_iff : forall r ss repID n base,
